@@ -92,8 +92,10 @@ type c14fEnv struct {
 	nf    int
 	wfs   []*wavefront.Wavefront
 	wfIdx map[*wavefront.Wavefront]int
-	progB []uint64 // fetch wavefronts: program base
-	progN []int    // program length in words
+	progB []uint64   // fetch wavefronts: program base
+	progN []int      // program length in words
+	prog  [][]uint32 // program mode: the instruction words of every wavefront
+	stores map[uint64]string // program mode: what the memory received from FLAT stores
 	nInst []int
 	ents  []*c14fEnt
 	byReq map[sim.Msg]*c14fEnt
@@ -106,6 +108,7 @@ type c14fEnv struct {
 	matched  []*c14fEnt // records whose answer was accepted during the current Tick
 	inTick   bool
 	nConsumed int
+	sentIDs   map[string]bool
 
 	ops, outs []string
 	fault     string
@@ -123,6 +126,8 @@ type c14fEnv struct {
 
 var c14fKinds = "fsvc"
 
+var c14fFwpReported int
+
 func (e *c14fEnv) line() string { return strings.Join(e.ops, " ; ") }
 
 // fail records an oracle failure. In the cases whose command processor ignores its protocol only
@@ -132,7 +137,13 @@ func (e *c14fEnv) line() string { return strings.Join(e.ops, " ; ") }
 func (e *c14fEnv) fail(sig, format string, a ...interface{}) {
 	if !e.proto {
 		if e.fwp && sig == "C14.flush.request-lost" {
-			e.r.Failf(sig+".flush-while-paused", e.line(), format, a...)
+			// the open finding: a few reproductions per run are enough (the failure list is bounded)
+			if c14fFwpReported < 40 {
+				c14fFwpReported++
+				e.r.Failf(sig+".flush-while-paused", e.line(), format, a...)
+			} else {
+				e.r.Count("flush:no-protocol:" + sig + ".flush-while-paused")
+			}
 		} else {
 			e.r.Count("flush:no-protocol:" + sig)
 		}
@@ -242,8 +253,11 @@ func (e *c14fEnv) inList(x *c14fEnt, shadow bool) bool {
 	return false
 }
 
-func c14fNewEnv(r *Run, nw, nf int, pre [4]int, proto bool) *c14fEnv {
-	e := &c14fEnv{r: r, nw: nw, nf: nf, byReq: map[sim.Msg]*c14fEnt{}, wfIdx: map[*wavefront.Wavefront]int{}, proto: proto}
+func c14fNewEnv(r *Run, nw, nf int, pre [4]int, proto bool, progs ...[]uint32) *c14fEnv {
+	if len(progs) > 0 {
+		nw, nf = 0, len(progs)
+	}
+	e := &c14fEnv{prog: progs, stores: map[uint64]string{}, r: r, nw: nw, nf: nf, sentIDs: map[string]bool{}, byReq: map[sim.Msg]*c14fEnt{}, wfIdx: map[*wavefront.Wavefront]int{}, proto: proto}
 	e.dec = c14fDec()
 	c := cu.MakeBuilder().WithEngine(&fakeEngine{}).WithFreq(1 * sim.GHz).
 		WithVectorMemModules(&mem.SinglePortMapper{Port: sim.RemotePort("VMem")}).Build("CU")
@@ -256,12 +270,25 @@ func c14fNewEnv(r *Run, nw, nf int, pre [4]int, proto bool) *c14fEnv {
 	}
 	c.ToACE.SetConnection(&fakeConn{name: "c"})
 	for i := 0; i < nw; i++ {
-		wf := wavefront.NewWavefront(kernels.NewWavefront())
+		// resident in a pool (setWavesToReady and the arbiters see it) with an empty program, so
+		// that the scheduler never fetches for it: its memory instructions come from the harness
+		rawWG := kernels.NewWorkGroup()
+		rawWG.Packet = &kernels.HsaKernelDispatchPacket{KernelObject: 0}
+		req := protocol.MapWGReqBuilder{}.WithSrc("Disp.Port").WithDst(c.ToACE.AsRemote()).WithWG(rawWG).Build()
+		wg := wavefront.NewWorkGroup(rawWG, req)
+		raw := kernels.NewWavefront()
+		raw.CodeObject = &insts.KernelCodeObject{KernelCodeObjectMeta: &insts.KernelCodeObjectMeta{}, Symbol: &elf.Symbol{Size: 0}}
+		raw.WG = rawWG
+		wf := wavefront.NewWavefront(raw)
+		wf.WG = wg
+		wg.Wfs = append(wg.Wfs, wf)
 		wf.SIMDID = i % 4
 		wf.VRegOffset = 0
 		wf.SRegOffset = i * 512
 		wf.SetPID(1)
+		wf.State = wavefront.WfReady
 		c.VerifNewWavefront(wf)
+		c.WfPools[wf.SIMDID].AddWf(wf)
 		e.wfs = append(e.wfs, wf)
 		e.wfIdx[wf] = i
 		e.nInst = append(e.nInst, 0)
@@ -269,6 +296,9 @@ func c14fNewEnv(r *Run, nw, nf int, pre [4]int, proto bool) *c14fEnv {
 	for j := 0; j < nf; j++ {
 		base := uint64(0x10000 * (j + 1))
 		n := 16 * (1 + j%3) // 1..3 cache lines of s_nop
+		if len(progs) > 0 {
+			n = len(progs[j])
+		}
 		rawWG := kernels.NewWorkGroup()
 		rawWG.Packet = &kernels.HsaKernelDispatchPacket{KernelObject: base}
 		req := protocol.MapWGReqBuilder{}.WithSrc("Disp.Port").WithDst(c.ToACE.AsRemote()).WithWG(rawWG).Build()
@@ -279,7 +309,7 @@ func c14fNewEnv(r *Run, nw, nf int, pre [4]int, proto bool) *c14fEnv {
 		wf := wavefront.NewWavefront(raw)
 		wf.WG = wg
 		wg.Wfs = append(wg.Wfs, wf)
-		wf.SIMDID = j % 4
+		wf.SIMDID = (nw + j) % 4
 		wf.SRegOffset = 2048 + j*512
 		wf.SetPID(1)
 		wf.SetPC(base)
@@ -321,8 +351,16 @@ func c14fDec() *c02Env {
 
 func (e *c14fEnv) progByte(a uint64) byte {
 	w := uint32(0xBF800000) | uint32((a/4)&0xffff)
+	for j, p := range e.prog {
+		if a >= e.progB[j] && a < e.progB[j]+uint64(4*len(p)) {
+			w = p[(a-e.progB[j])/4]
+		}
+	}
 	return byte(w >> (8 * (a % 4)))
 }
+
+// c14fMemByte is the content of the data memory in program mode
+func c14fMemByte(a uint64) byte { return byte((a>>2)*131 + (a&3)*17 + 9) }
 
 func (e *c14fEnv) setS(i, reg int, v uint32) {
 	e.cu.SRegFile.Write(cu.RegisterAccess{Reg: insts.SReg(reg), RegCount: 1, WaveOffset: e.wfs[i].SRegOffset, Data: insts.Uint32ToBytes(v)})
@@ -648,12 +686,16 @@ func (e *c14fEnv) tick() {
 		return
 	}
 	var freshF []*c14fEnt
-	for k := 0; k < 3; k++ {
+	var freshSV [3][]*c14fEnt
+	for _, k := range []int{1, 2, 0} { // the order of runPipeline: scalar unit, vector memory unit, scheduler
 		fr := e.scanNew(k)
 		if k == 0 {
 			freshF = fr
 		} else if len(fr) > 0 {
-			e.fail("C14.flush.final-state", "records appeared in list %c without an issue event", c14fKinds[k])
+			freshSV[k] = fr
+			if e.prog == nil {
+				e.fail("C14.flush.final-state", "records appeared in list %c without an issue event", c14fKinds[k])
+			}
 		}
 	}
 	for _, x := range e.matched {
@@ -676,10 +718,11 @@ func (e *c14fEnv) tick() {
 			if rec.ent.sends > 1 {
 				e.fail("C14.flush.resent-twice", "record %d (%c, wavefront %d) was put on its port %d times since the last flush", rec.ent.id, c14fKinds[k], rec.ent.wf, rec.ent.sends)
 			}
-			if ids[rec.id] {
-				e.fail("C14.flush.resent-twice", "request ID of record %d sent twice in one cycle", rec.ent.id)
+			if ids[rec.id] || e.sentIDs[rec.id] {
+				e.fail("C14.flush.resent-twice", "record %d (%c, wavefront %d): a request with an ID that was already used is put on the port (the answer to the earlier request will be taken for the answer to this one)", rec.ent.id, c14fKinds[k], rec.ent.wf)
 			}
 			ids[rec.id] = true
+			e.sentIDs[rec.id] = true
 			e.recTok(rec)
 		}
 		if e.ackSeen && len(e.tickSend[k]) > 0 {
@@ -733,11 +776,29 @@ func (e *c14fEnv) tick() {
 			e.nRrsp++
 		}
 	}
+	// program mode: the units issued memory instructions in the pipeline phase of this Tick
+	issued := func(k int) {
+		for i := 0; i < len(freshSV[k]); {
+			j := i
+			for j < len(freshSV[k])-1 && !freshSV[k][j].last && freshSV[k][j+1].wf == freshSV[k][i].wf {
+				j++
+			}
+			name := "is"
+			if k == 2 {
+				name = "iv"
+			}
+			e.push(fmt.Sprintf("%s %d %d", name, freshSV[k][i].wf, j-i+1), fmt.Sprintf("i%d", freshSV[k][i].id))
+			e.r.Count("flush:program-issue")
+			i = j + 1
+		}
+	}
 	if !before.IsPaused {
 		e.push("us", fmt.Sprintf("u%d", len(e.tickSend[1])))
+		issued(1)
 		if len(e.tickSend[2]) > 0 {
 			e.push(fmt.Sprintf("uv %d", len(e.tickSend[2])), fmt.Sprintf("u%d", len(e.tickSend[2])))
 		}
+		issued(2)
 		for _, x := range freshF {
 			e.push(fmt.Sprintf("fe %d", x.wf), fmt.Sprintf("i%d", x.id))
 		}
@@ -783,6 +844,9 @@ func (e *c14fEnv) take(k, n int) {
 	}
 	e.push(fmt.Sprintf("tk %c %d", c14fKinds[k], n), "k"+e.recStr(got))
 	for _, rec := range got {
+		if w, ok := rec.msg.(*mem.WriteReq); ok && e.prog != nil {
+			e.stores[w.Address] = hexb(w.Data)
+		}
 		if rec.ent != nil {
 			for g, s := range rec.ent.gens {
 				if s == rec.id {
@@ -817,6 +881,16 @@ func (e *c14fEnv) rspData(x *c14fEnt, n int) []byte {
 		a := x.req.(*mem.ReadReq).Address
 		for j := range d {
 			d[j] = e.progByte(a + uint64(j))
+		}
+		return d
+	}
+	if e.prog != nil {
+		a := x.req.(*mem.ReadReq).Address
+		if x.kind == 2 {
+			a &^= 63
+		}
+		for j := range d {
+			d[j] = c14fMemByte(a + uint64(j))
 		}
 		return d
 	}
@@ -887,6 +961,8 @@ type c14fPlan struct {
 	shuffle  bool // answers in a chosen order
 	eager2   bool // the second flush follows the restart answer at once
 	block    bool // other traffic fills the memory ports before the restart request
+	stall    bool // the scalar and vector ports are full until the first flush has been executed
+	inorder  bool // every memory answers in the order in which it received the requests
 	rounds   int  // flush / restart rounds
 	holdRsp  int  // percent: an answerable request is left unanswered this cycle
 }
@@ -904,11 +980,23 @@ func runC14Flush(r *Run, rng *Rng, replay string) {
 		if p.block {
 			p.takeMode = 2
 		}
+		if rng.Chance(20) {
+			p.stall = true
+			p.pre[1], p.pre[2] = 32, 64
+		}
 		if rng.Chance(35) { // back-pressure from foreign traffic
 			p.pre = [4]int{rng.Pick(0, 2, 3, 4), rng.Pick(0, 28, 30, 31, 32), rng.Pick(0, 58, 61, 63, 64), 0}
 		}
 		if !p.proto && rng.Chance(40) {
 			p.pre[3] = rng.Range(1, 4)
+		}
+		if k%4 == 3 {
+			// the memory answers in order (the hypothesis under which the counters are the number of
+			// instructions with an outstanding transaction, see waitcnt_tracks_truth) and with the
+			// ID the request had when it was sent
+			p.proto, p.stall, p.pre, p.shuffle, p.lateID, p.inorder = true, false, [4]int{}, false, false, true
+			c14fProgCase(r, rng, p)
+			continue
 		}
 		c14fCase(r, rng, p, uint64(k))
 	}
@@ -935,7 +1023,7 @@ func (e *c14fEnv) finish(p c14fPlan) {
 func (e *c14fEnv) takes(rng *Rng, p c14fPlan) {
 	f := e.cu.VerifFlushFlags()
 	for k := 0; k < 3; k++ {
-		if len(e.out[k]) == 0 {
+		if len(e.out[k]) == 0 || (p.stall && k > 0 && e.nFlush == 0) {
 			continue
 		}
 		switch p.takeMode {
@@ -972,7 +1060,13 @@ func (e *c14fEnv) answers(rng *Rng, p c14fPlan, all bool) {
 	for _, i := range order {
 		rec := e.pending[i]
 		x := rec.ent
-		if full[x.kind] || (!all && rng.Chance(p.holdRsp)) {
+		if full[x.kind] {
+			continue
+		}
+		if !all && rng.Chance(p.holdRsp) {
+			if p.inorder {
+				full[x.kind] = true
+			}
 			continue
 		}
 		g := rec.gen
@@ -1124,6 +1218,11 @@ func (e *c14fEnv) quiet() bool {
 			return false
 		}
 	}
+	for j := range e.prog {
+		if e.wfs[e.nw+j].PC() != e.progB[j]+uint64(4*e.progN[j]) {
+			return false
+		}
+	}
 	for j := 0; j < e.nf; j++ { // fetch wavefronts still have program to fetch
 		wf := e.wfs[e.nw+j]
 		if wf.InstBufferStartPC+uint64(len(wf.InstBuffer)) < e.progB[j]+uint64(4*e.progN[j]) && len(wf.InstBuffer) < 256 {
@@ -1135,7 +1234,7 @@ func (e *c14fEnv) quiet() bool {
 
 // final evaluates the oracles of a finished case: all answers accepted, counters zero, flags clear,
 // acknowledgements counted, registers equal to those of the run without a flush.
-func (e *c14fEnv) final() {
+func (e *c14fEnv) finalCommon() {
 	r := e.r
 	r.Checked("flush-final")
 	f := e.cu.VerifFlushFlags()
@@ -1157,6 +1256,11 @@ func (e *c14fEnv) final() {
 	if e.proto && (e.nAck != e.nFlush || e.nRrsp != e.nRestart) {
 		e.fail("C14.flush.ack-count", "%d flush requests executed, %d acknowledgements; %d restart requests, %d answers", e.nFlush, e.nAck, e.nRestart, e.nRrsp)
 	}
+}
+
+func (e *c14fEnv) final() {
+	e.finalCommon()
+	r := e.r
 	if len(e.issues) > 0 {
 		r.Checked("flush-registers")
 		ref := c14fReference(r, e.nw, e.issues)
@@ -1229,4 +1333,214 @@ func c14fKnown(r *Run) {
 	}
 	e.final()
 	e.finish(p)
+}
+
+// ---- program mode -----------------------------------------------------------------------------------
+//
+// 1-3 wavefronts resident in the pools execute real instruction streams (s_load_dword[x2],
+// flat_load_dword, flat_store_dword of a loaded register, s_waitcnt 0, s_nop) through the real
+// fetch / decode / issue / unit pipelines; nothing is issued by hand. The harness only plays the
+// memories and the command processor. The same observation produces the events for the model, and
+// the final state (registers, program counters, what the memory received from the stores) is
+// compared with a run of the same programs that is never flushed.
+
+type c14fBlock struct{ kind, a, b int }
+
+func c14fGenProg(rng *Rng) (words []uint32, nLanes int) {
+	emit := func(d desc) {
+		b := encodeDesc(d)
+		for i := 0; i+4 <= len(b); i += 4 {
+			words = append(words, uint32(b[i])|uint32(b[i+1])<<8|uint32(b[i+2])<<16|uint32(b[i+3])<<24)
+		}
+	}
+	wait := func() { emit(desc{format: "sopp", op: 12, f: map[string]uint32{"simm16": 0}}) }
+	nLanes = rng.Pick(1, 1, 2, 3, 5)
+	k := rng.Range(2, 6)
+	loaded := []int{}
+	pendingLoad := false
+	for i := 0; i < k; i++ {
+		switch rng.Pick(0, 1, 1, 2, 3) {
+		case 0: // scalar load
+			opc, off := rng.Pick(0, 1), 8*i
+			if opc == 1 && rng.Chance(50) {
+				off = 60
+			}
+			emit(desc{format: "smem", op: uint32(opc), f: map[string]uint32{"imm": 1, "sdata": uint32(16 + 2*i), "sbase": c14fSBase / 2, "offset": uint32(off)}})
+		case 1: // vector load
+			emit(desc{format: "flat", op: 20, f: map[string]uint32{"vdst": uint32(8 + i), "addr": c14fAddr, "saddr": 0x7f}})
+			loaded = append(loaded, 8+i)
+			pendingLoad = true
+		case 2: // store a loaded register (after the wait) or a preset one
+			src := 4
+			if len(loaded) > 0 {
+				src = loaded[rng.Intn(len(loaded))]
+				if pendingLoad {
+					wait()
+					pendingLoad = false
+				}
+			}
+			emit(desc{format: "flat", op: 28, f: map[string]uint32{"data": uint32(src), "addr": 6, "saddr": 0x7f}})
+		case 3:
+			wait()
+			pendingLoad = false
+		}
+		for n := rng.Intn(3); n > 0; n-- {
+			emit(desc{format: "sopp", op: 0, f: map[string]uint32{"simm16": 0}})
+		}
+	}
+	wait()
+	// instructions are fetched by cache line: fill the last line with s_nop
+	for len(words)%16 != 0 {
+		emit(desc{format: "sopp", op: 0, f: map[string]uint32{"simm16": uint32(len(words))}})
+	}
+	return words, nLanes
+}
+
+func (e *c14fEnv) progSetup(lanes []int) {
+	for j := range e.prog {
+		i := e.nw + j
+		wf := e.wfs[i]
+		wf.VRegOffset = 0
+		sb := uint64(0x300000000) + uint64(j)*0x10000
+		e.setS(i, c14fSBase, uint32(sb))
+		e.setS(i, c14fSBase+1, uint32(sb>>32))
+		for l := 0; l < 64; l++ {
+			la := uint64(0x200000000) + uint64(j)*0x100000 + uint64(l)*64 + uint64(4*(l%7))
+			sa := uint64(0x280000000) + uint64(j)*0x100000 + uint64(l)*64 + uint64(4*(l%5))
+			e.setV(i, l, c14fAddr, uint32(la))
+			e.setV(i, l, c14fAddr+1, uint32(la>>32))
+			e.setV(i, l, 6, uint32(sa))
+			e.setV(i, l, 7, uint32(sa>>32))
+			e.setV(i, l, 4, 0xC0DE0000+uint32(j)<<8+uint32(l))
+		}
+		wf.SetEXEC((uint64(1) << uint(lanes[j])) - 1)
+	}
+}
+
+// progState is what a finished program run leaves behind
+func (e *c14fEnv) progState() string {
+	var b []byte
+	var sb strings.Builder
+	buf := make([]byte, 4)
+	for j := range e.prog {
+		i := e.nw + j
+		wf := e.wfs[i]
+		for reg := 16; reg < 32; reg++ {
+			e.cu.SRegFile.Read(cu.RegisterAccess{Reg: insts.SReg(reg), RegCount: 1, WaveOffset: wf.SRegOffset, Data: buf})
+			b = append(b, buf...)
+		}
+		for reg := 8; reg < 16; reg++ {
+			for lane := 0; lane < 6; lane++ {
+				e.cu.VRegFile[wf.SIMDID].Read(cu.RegisterAccess{Reg: insts.VReg(reg), RegCount: 1, LaneID: lane, WaveOffset: wf.VRegOffset, Data: buf})
+				b = append(b, buf...)
+			}
+		}
+		fmt.Fprintf(&sb, "pc%d=%x ", j, wf.PC()-e.progB[j])
+	}
+	fmt.Fprintf(&sb, "regs=%016x stores=%s", fnv(b), c14fStoreStr(e.stores))
+	return sb.String()
+}
+
+func c14fStoreStr(m map[uint64]string) string {
+	keys := make([]uint64, 0, len(m))
+	for k := range m {
+		keys = append(keys, k)
+	}
+	for i := 1; i < len(keys); i++ {
+		for j := i; j > 0 && keys[j] < keys[j-1]; j-- {
+			keys[j], keys[j-1] = keys[j-1], keys[j]
+		}
+	}
+	var b []byte
+	for _, k := range keys {
+		b = append(b, []byte(fmt.Sprintf("%x:%s;", k, m[k]))...)
+	}
+	return fmt.Sprintf("%d/%016x", len(keys), fnv(b))
+}
+
+func c14fProgRun(r *Run, rng *Rng, p c14fPlan, progs [][]uint32, lanes []int, flush bool) (*c14fEnv, string) {
+	e := c14fNewEnv(r, 0, 0, p.pre, true, progs...)
+	e.progSetup(lanes)
+	p.nw, p.nf = 0, len(progs)
+	e.ops = []string{e.header(p)}
+	rounds := 0
+	budget := 60 + 40*p.rounds
+	if !flush {
+		budget = 0
+	}
+	for cyc := 0; cyc < budget && e.fault == ""; cyc++ {
+		e.takes(rng, p)
+		e.answers(rng, p, false)
+		switch e.cpSt {
+		case 0:
+			if rounds < p.rounds && (rng.Chance(8) || (rounds > 0 && p.eager2)) {
+				e.cpDeliver(true)
+				rounds++
+			}
+		case 1, 3:
+			if len(e.out[3]) > 0 && rng.Chance(70) {
+				e.take(3, 1)
+			}
+		case 2:
+			if rng.Chance(40) {
+				if p.block {
+					for k := 0; k < 3; k++ {
+						e.foreign(k, []int{4, 32, 64}[k]-len(e.out[k])-rng.Pick(0, 0, 1, 2))
+					}
+				}
+				e.cpDeliver(false)
+			}
+		}
+		e.tick()
+	}
+	p2 := p
+	p2.takeMode, p2.holdRsp, p2.stall, p2.lateID, p2.shuffle = 0, 0, false, true, false
+	for cyc := 0; cyc < 500 && e.fault == ""; cyc++ {
+		if len(e.out[3]) > 0 {
+			e.take(3, len(e.out[3]))
+		}
+		if e.cpSt == 2 {
+			e.cpDeliver(false)
+		}
+		e.takes(rng, p2)
+		e.answers(rng, p2, true)
+		e.tick()
+		if e.quiet() {
+			break
+		}
+	}
+	return e, e.progState()
+}
+
+func c14fProgCase(r *Run, rng *Rng, p c14fPlan) {
+	n := rng.Range(1, 3)
+	var progs [][]uint32
+	var lanes []int
+	for j := 0; j < n; j++ {
+		w, l := c14fGenProg(rng)
+		progs, lanes = append(progs, w), append(lanes, l)
+	}
+	ref, want := c14fProgRun(&Run{Dist: map[string]int{}, distinct: map[string]struct{}{}}, nil, c14fPlan{}, progs, lanes, false)
+	if !ref.quiet() || len(ref.r.fails) > 0 {
+		r.Failf("C14.flush.final-state", strings.Join(ref.ops[:1], ""), "program run without a flush does not finish cleanly (%s): %v", ref.why(), ref.r.fails)
+		return
+	}
+	e, got := c14fProgRun(r, rng, p, progs, lanes, true)
+	if e.fault == "" {
+		r.Checked("flush-program-final")
+		if !e.quiet() {
+			e.fail("C14.flush.final-state", "program run: after restart and all answers the wavefronts do not reach the end of their programs within 500 cycles (%s; %s)", got, e.why())
+		} else if got != want {
+			if os.Getenv("C14F_DEBUG") != "" {
+				fmt.Println("PROG DIFF", got, want, e.stores, ref.stores)
+				for j, w := range progs {
+					fmt.Printf(" prog %d lanes %d: %08x\n", j, lanes[j], w)
+				}
+			}
+			e.fail("C14.flush.final-state", "program run: final state differs from the run of the same programs without a flush: %s, expected %s", got, want)
+		}
+		e.finalCommon()
+	}
+	e.finish(p)
+	r.Count("flush:program-case")
 }
